@@ -95,13 +95,14 @@ def main():
     m = need("src/search/mod.rs", r"fn get_memory_usage_mb\(&self\) -> usize \{\s*(?://[^\n]*\s*)*let base_memory_kb = (\d+);.*?self\.stack\.len\(\) \* (\d+);.*?let current_memory_kb = (\d+);.*?\(self\.iteration_count / (\d+)\) \* (\d+);.*?iteration_memory_kb\) / (\d+)\)\.max\((\d+)\)", "Engine::get_memory_usage_mb formula")
     for nm, g in zip(["mem_base_kb", "mem_frame_kb", "mem_current_kb", "mem_iter_div", "mem_iter_kb", "mem_kb_per_mb", "mem_min_mb"], m.groups()):
         defs.append((nm, int(g), "search/mod.rs Engine::get_memory_usage_mb"))
-    # --- fluent API: placeholder bounds of auxiliary variables (runtime_api/mod.rs get_expr_var)
+    # --- fluent API: auxiliary variables get computed bounds (expr_bounds); no placeholder may remain
     ra = src("src/runtime_api/mod.rs")
-    ph = set(re.findall(r"model\.int\((-?\d+),\s*(-?\d+)\)\s*,?\s*// Placeholder bounds", ra))
-    if len(ph) != 1:
-        sys.stderr.write("gen_consts: placeholder bounds of auxiliary variables not found or ambiguous: %s\n" % ph); sys.exit(1)
-    lo, hi = ph.pop()
-    defs.append(("aux_placeholder_lo", int(lo), "runtime_api/mod.rs placeholder bounds")); defs.append(("aux_placeholder_hi", int(hi), "runtime_api/mod.rs placeholder bounds"))
+    if re.search(r"// Placeholder bounds", ra):
+        sys.stderr.write("gen_consts: runtime_api/mod.rs still creates auxiliary variables with placeholder bounds\n"); sys.exit(1)
+    need("src/runtime_api/mod.rs", r"fn expr_bounds\(model: &Model, expr: &ExprBuilder\) -> ExprBounds", "expr_bounds (bounds of auxiliary variables)")
+    # --- functions::element on an empty array: the one remaining fixed-range value handle (Model/Routes.v aux_lo / aux_hi)
+    m = need("src/constraints/functions.rs", r"None => model\.int\((-?\d+),\s*(-?\d+)\),\s*// empty array", "functions::element empty-array value handle")
+    defs.append(("felement_empty_lo", int(m.group(1)), "constraints/functions.rs element(): value handle of an empty array")); defs.append(("felement_empty_hi", int(m.group(2)), "constraints/functions.rs element(): value handle of an empty array"))
     # --- all-different engines
     m = need("src/variables/domain/bitset_domain.rs", r"pub const MAX_BITSET_DOMAIN_SIZE:\s*usize\s*=\s*(\d+);", "MAX_BITSET_DOMAIN_SIZE")
     defs.append(("max_bitset_domain_size", int(m.group(1)), "bitset_domain.rs MAX_BITSET_DOMAIN_SIZE"))
